@@ -152,6 +152,15 @@ class Sim:
                 return self.fail("C09/row-never-added-returned", f"filter({m!r}, {p!r}, {n}) returned {bad}")
             if len(got) != min(n, len(want)):
                 return self.fail("C09/wrong-number-of-rows", f"filter({m!r}, {p!r}, {n}) returned {len(got)} rows, {len(want)} distinct rows match (expected min(n, d) = {min(n, len(want))})")
+        elif kind == "age":
+            # rows committed on earlier calendar days: shift the stored timestamps of every other row back through an
+            # independent connection (the store only ever writes `now`; the clock is not ours to move)
+            con = sqlite3.connect(self.path)
+            con.execute("UPDATE monkeytype_call_traces SET created_at = datetime(created_at, ?) WHERE rowid % 2 == ?", (f"-{op[1]} day", op[2] % 2))
+            con.commit()
+            con.close()
+            if self.model:
+                self.flags.add("rows-from-several-days")
         elif kind == "list":
             s = self.stores[op[1] % len(self.stores)]
             got = s.list_modules()
@@ -199,6 +208,11 @@ def make_machine(ctx, dirpath):
         @rule(si=st.integers(0, 2))
         def reopen(self, si):
             self.sim.do(["reopen", si])
+
+        @precondition(lambda self: len(self.sim.model) > 0 and len(self.sim.ops) % 4 == 3)
+        @rule(days=st.integers(1, 3), parity=st.integers(0, 1))
+        def age(self, days, parity):
+            self.sim.do(["age", days, parity])
 
         @precondition(lambda self: len(self.sim.stores) < 3)
         @rule()
@@ -309,6 +323,7 @@ def crash_points(ctx, dirpath, sizes, kill):
                         c[0] += 1
                         return 1 if c[0] == n else 0
                     s.conn.set_progress_handler(h, 1)
+                    retry_lost = None
                     try:
                         s.add([mk_trace(t) for t in batch_specs("x", size)])
                     except sqlite3.Error as e:
@@ -317,10 +332,26 @@ def crash_points(ctx, dirpath, sizes, kill):
                         ctx.fail(f"C09/add-raises:{type(e).__name__}", spec, repr(e), raise_=False)
                         continue
                     finally:
+                        if raised is not None and n % 2 == 0:
+                            # the retry a flush performs after a failed write: the same rows, the same store object
+                            try:
+                                s.conn.set_progress_handler(None, 1)
+                                s.add([mk_trace(t) for t in batch_specs("x", size)])
+                                got_retry = {r.qualname for r in s.filter("m", "fx_", 100)}
+                                if got_retry != {f"fx_{i}" for i in range(size)}:
+                                    retry_lost = sorted({f"fx_{i}" for i in range(size)} - got_retry)
+                            except Exception as e:
+                                retry_lost = repr(e)
                         try:
                             s.conn.close()
                         except Exception:
                             pass
+                    if retry_lost is not None:
+                        ctx.fail("C09/retry-after-failed-write-loses-rows", spec, f"add aborted at step {n}, then the same batch added again through the same store: missing {retry_lost}", raise_=False)
+                        continue
+                    if raised is not None and n % 2 == 0:
+                        ctx.case(spec + ["retry"], True, ["crash:abort+retry"])
+                        continue
                 else:
                     pid = os.fork()
                     if pid == 0:
@@ -469,6 +500,23 @@ def free_running(ctx, dirpath, nproc, rep):
                 ctx.fail("C09/batch-partially-committed", spec, f"writer {wid} batch {b}: add {status}, {got} of {size} rows stored", raise_=False)
 
 
+def big_batch(ctx, dirpath, n):
+    """one flush of several hundred distinct traces: every one of them is stored"""
+    path = os.path.join(dirpath, f"big_{n}.sqlite3")
+    s = SQLiteStore.make_store(path)
+    specs = [["m", f"big_{i}", i % 3, (i // 3) % 3, (i // 9) % 2, False] for i in range(n)]
+    s.add([mk_trace(t) for t in specs])
+    s.conn.close()
+    s2 = SQLiteStore.make_store(path)
+    got = {r.qualname for r in s2.filter("m", "big_", 5000)}
+    s2.conn.close()
+    spec = ["BIG", n]
+    ctx.case(spec, True, ["big-batch"])
+    missing = sorted({f"big_{i}" for i in range(n)} - got, key=lambda x: int(x[4:]))
+    if missing:
+        ctx.fail("C09/committed-batch-lost", spec, f"one add() of {n} distinct traces: {len(missing)} rows missing, e.g. {missing[:5]}", raise_=False)
+
+
 def shard(ctx):
     q = ctx.tier == "quick"
     d = tempfile.mkdtemp(prefix="c09-")
@@ -491,6 +539,9 @@ def shard(ctx):
         exhaustive_histories(ctx, d, 2 if q else 3)
         crash_points(ctx, d, (1, 2, 3) if q else (1, 2, 3, 4, 5, 6), kill=True)
         paused_writer(ctx, d, 2 if q else 4)
+        if ctx.shard == 0:
+            for n in ((450,) if q else (199, 200, 201, 450, 1000, 2500)):
+                big_batch(ctx, d, n)
     finally:
         shutil.rmtree(d, ignore_errors=True)
 
@@ -521,5 +572,7 @@ def replay(ctx, case):
             paused_writer(ctx, d, case[1])
         elif case[0] == "RACE":
             free_running(ctx, d, case[1], case[2])
+        elif case[0] == "BIG":
+            big_batch(ctx, d, case[1])
     finally:
         shutil.rmtree(d, ignore_errors=True)
